@@ -22,7 +22,7 @@ MSEL = mcq("MC_MaskSelect")
 #   mc:   per tier, list of (module, cfg) model-checking runs (read nothing from /repo)
 PROPS = {
     "C01": dict(scen=[("core", "cells", True), ("core", "lengths", True), ("core", "structured", True), ("core", "discovered", False)], mc=PIPE, invariants="RoundTripInv (MC), RoundTrip (TV)"),
-    "C02": dict(scen=[("core", "cells", True), ("core", "nearblocks", True), ("core", "corrupt", True), ("hooked", "tables", False)], mc=mc_join(PIPE, LEMMAS),
+    "C02": dict(scen=[("core", "cells", True), ("core", "nearblocks", True), ("core", "corrupt", True), ("hooked", "birthday", False), ("hooked", "tables", False)], mc=mc_join(PIPE, LEMMAS),
                 invariants="BlocksValidInv (MC), CodewordCount/RemainderBitsZero/BlockShape/SyndromesZero + Corrupt/Recover (TV), BMLemma"),
     "C03": dict(scen=[("core", "cells", True), ("hooked", "maskop", False), ("hooked", "tables", False)], mc=mc_join(PIPE, LEMMAS),
                 invariants="FunctionPatternsInv (MC), FunctionPatternsExact/NothingOutsideSquare (TV), LayoutLemmas"),
@@ -32,7 +32,7 @@ PROPS = {
                 invariants="MinimalVersionInv, OutcomeTotal (MC), MinimalVersion/ExpectedOutcome (TV), EncodeLemmas (monotonicity)"),
     "C06": dict(scen=[("core", "cells", True), ("core", "lengths", True), ("core", "structured", True), ("core", "discovered", False), ("hooked", "encode", False), ("hooked", "tables", False)], mc=PIPE,
                 invariants="DataCodewordsISOInv, StagedEqualsClosedForm (MC), DataCodewordsISO (TV)"),
-    "C07": dict(scen=[("core", "cells", True), ("core", "nearblocks", True), ("hooked", "rs", False)], mc=mc_join(PIPE, LEMMAS),
+    "C07": dict(scen=[("core", "cells", True), ("core", "nearblocks", True), ("hooked", "birthday", False), ("hooked", "rs", False)], mc=mc_join(PIPE, LEMMAS),
                 invariants="ECIsRemainderInv (MC), ECIsRemainder/Poly/Division/DivBlock (TV), FieldLemmas"),
     "C08": dict(scen=[("core", "maskgroups", True), ("hooked", "maskop", False)], mc=mc_join(PIPE, LEMMAS),
                 invariants="MaskExactInv (MC), same-unmasked-symbol per group + MaskOp (TV), MaskLemmas"),
@@ -53,12 +53,13 @@ PROPS.update({
                 invariants="TextShape/TextBorder/TextModules (TV); MC_Render: decode o TextOf = id on all 0/1 matrices of a small side"),
     "C17": dict(scen=[("hooked|wasm", "wasm", True)], mc={"quick": [], "thorough": []},
                 invariants="HavocExact, TypeOK (MC_Wasm, GEN); WasmNeverTraps, WasmEqualsNative = Render predicates on NativeOf(W_After(program)) + string equality with the native output (TV)"),
-    "C18": dict(scen=[("core", "frames", True), ("core", "sessions", True)], mc=mcq("MC_Render"),
+    "C18": dict(scen=[("core", "frames", True), ("core", "rasterframes", True), ("core", "sessions", True)], mc=mcq("MC_Render"),
                 invariants="FrameDefault, FrameImageCentred, monotone frame side (FrameSweep), FrameOverrides (TV)"),
     "C19": dict(scen=[("core", "fileio", True), ("core", "fileconc", True)], mc={"quick": [], "thorough": []}, apalache=["FileInd"],
                 invariants="FileAllOrError (MC_FileIO, GEN -> replay), F_Run(fault, AbsOff(limit, len)) = observed return (TV); FileInd: inductive invariant for any number of chunks (Apalache)"),
 })
 # scenarios whose programs / behaviours are generated by TLC from a machine of the specification (GEN -> replay -> TV)
+NO_TWIN = {"birthday"}        # a sweep that only selects inputs (25 CPU-minutes in the thorough tier): driven against one build configuration
 # scenario -> (fuzz target, seconds per tier)
 DISCOVER = {"discovered": ("qrbuild", {"quick": 25, "thorough": 300}), "candidates": ("qrbuild", {"quick": 25, "thorough": 300}), "svgdiscovered": ("svgimage", {"quick": 15, "thorough": 120})}
 GEN = {"fileio": ("FileIO.tla", "MC_FileIO.cfg", False), "wasm": ("MC_Wasm.tla", "MC_Wasm_{tier}.cfg", True),
@@ -74,7 +75,7 @@ PROPS["C14"] = dict(scen=[("core", "histories:SeqEclMask", True), ("core", "hist
 CLAIMS = {
  "C01": ("TLC model-checks the staged build machine (every option combination over a small input set, decode path against construction path) and validates Build events of the real crate: all 160 (version, level) cells x boundary lengths (capacity, capacity-1, smallest length needing the version, 0/1, half) x rotating modes and forced/automatic masks, every payload length 0..260 (0..1200 thorough) per mode, structured contents (long runs, 000/999 groups, pad look-alikes, repeated records, every digit triple and alphanumeric pair, user-like and periodic contents), inputs discovered by a coverage-guided fuzzer; each symbol is decoded by the ISO reference procedure written in TLA+ (format bits, unmasking, zig-zag read-out, de-interleaving, strict single-segment parse) and must give back the input.",
          "Payload bytes are sampled (seeded); configuration cells are enumerated and counted. The decoder is the specification's own (QRDecode.tla), independent of every table of the crate."),
- "C02": ("Block count, block sizes (short blocks first), interleaving, remainder bits and all syndromes are read off every built symbol of all 160 cells and compared with the geometry-derived layout and GF(256) generated from 0x11D; Corrupt events apply seeded error patterns of weight 1, t/2 and t = floor(ec/2) per block (burst and spread) and a Berlekamp-Massey/Chien/Forney decoder written in TLA+ must recover every block; byte payloads whose data blocks mirror each other up to a compensating difference (against digest-keyed shortcuts); the crate's block-group table is judged cell by cell through the hook tier.",
+ "C02": ("Block count, block sizes (short blocks first), interleaving, remainder bits and all syndromes are read off every built symbol of all 160 cells and compared with the geometry-derived layout and GF(256) generated from 0x11D; Corrupt events apply seeded error patterns of weight 1, t/2 and t = floor(ec/2) per block (burst and spread) and a Berlekamp-Massey/Chien/Forney decoder written in TLA+ must recover every block; byte payloads whose data blocks mirror each other up to a compensating difference (against digest-keyed shortcuts), and the birthday sweep described under C07; the crate's block-group table is judged cell by cell through the hook tier.",
          "Error patterns are sampled; the algebraic guarantee rests on the syndrome check, which is made on every block of every event. ISO Table 9 (EC codewords per block, number of blocks) is typed into the specification and cross-checked by MC_Lemmas against the geometric module count."),
  "C03": ("Every module of every built symbol that lies in a function pattern is compared with the closed-form geometry of QRLayout.tla (finder rings, separators, timing parity, Annex E alignment centres in closed form, dark module); the tail of the 177x177 backing array must stay default; blank symbols of all 40 versions and every mask sweep alone are judged through the hook tier.",
          "Exhaustive over (version, coordinate); payload, level and mask are sampled per cell (payload-independence is observed, not proved)."),
@@ -84,7 +85,7 @@ CLAIMS = {
          "Large symbols are judged on outcome and reported fields only in the quick tier (fully decoded in thorough). A panic or hang is an outcome that matches no action of the specification."),
  "C06": ("Data codewords read back from every built symbol, and the encoder's output alone through the hook tier (480 (version, level, mode) cells x lengths leaving 0..12 spare bits, all residues), (and of about 700 inputs per run discovered by a coverage-guided fuzzer, which finds content the crate treats specially) must equal the closed-form ISO 7.4 bit stream of QREncode.tla bit for bit (mode indicator, count width per version class, group packing, terminator, zero fill, pad alternation); MC checks the staged encoder of the machine equal to the closed form.",
          "Payload contents sampled; the count widths and mode indicators are typed into the specification."),
- "C07": ("Through the hook tier: the generator accessor for all 160 cells against generators built from their roots; remainders of b*x^k for the single-non-zero-byte basis (13 degrees x 123 powers x 8 (quick) / all 255 (thorough) byte values, each step checked as one LFSR shift of the recorded predecessor); 64 / 320 random and structured contents per (degree, block length) shape. Through the public API: every block of every built symbol is re-divided by the model.",
+ "C07": ("Through the hook tier: the generator accessor for all 160 cells against generators built from their roots; remainders of b*x^k for the single-non-zero-byte basis (13 degrees x 123 powers x 8 (quick) / all 255 (thorough) byte values, each step checked as one LFSR shift of the recorded predecessor); 64 / 320 random and structured contents per (degree, block length) shape. Through the public API: every block of every built symbol is re-divided by the model; a birthday sweep (2 / 24 million random payloads through the encode and structure stages, those with a block that does not XOR to zero built and judged) looks for content-keyed shortcuts.",
          "The division is GF(2)-linear, so the basis covers every content for defects that are linear; content-dependent control-flow defects are covered by the random blocks (sampled)."),
  "C08": ("For all 40 versions the same payload is built with the eight forced masks and automatic selection; un-masking each symbol with the mask named in its own format bits must give the same matrix (function modules included, format strip excluded); each mask sweep alone is judged against the Table 10 condition on blank, all-dark and random fills through the hook tier.",
          "One level per version in the quick tier (all four in thorough); payloads sampled."),
@@ -106,7 +107,7 @@ CLAIMS = {
          "The upper half of the first line is outside the picture and unconstrained."),
  "C17": ("wasm.rs compiled on the host through a guarded #[path] module. TLC exports every setter program over a 36-call alphabet (well-formed and malformed values) up to length 2 / 3; each is replayed under catch_unwind; the export must be empty exactly when the specification says the content cannot be encoded, equal to the native output (string equality when no malformed value is involved, field by field modulo havoc registers otherwise), and the native settings used for comparison must be the model's NativeOf(W_After(program)).",
          "Needs the hook tier (exit 2 without it). A malformed value leaves its register unspecified in the model."),
- "C18": ("Default frames for all 40 versions x 3 shapes x margins 0..16 (and 17, 33, 64, 120) (one event per (shape, margin) holding all versions: centred, module-aligned, below 40%, clear of the finder boxes, image centred and not larger, side monotone in the version); 420 / 6 000 explicit size / gap / position overrides on quarter-module and arbitrary 3-decimal values with tolerances derived from the two-decimal printing.",
+ "C18": ("Default frames for all 40 versions x 3 shapes x margins 0..16 (and 17, 33, 64, 120) (one event per (shape, margin) holding all versions: centred, module-aligned, below 40%, clear of the finder boxes, image centred and not larger, side monotone in the version); 420 / 6 000 explicit size / gap / position overrides on quarter-module and arbitrary 3-decimal values with tolerances derived from the two-decimal printing, a quarter of them drawn from the whole legal range (images from 0.01 module to three times the drawing, gaps up to a symbol side, positions anywhere and slightly outside); through the raster builder: explicit size, gap and position (x different from y) decide which cells show the frame colour.",
          "Overrides are sampled."),
  "C19": ("TLC explores the to_file machine under every fault class x strike offset and exports the 29 behaviours; each is replayed with real faults (missing directory, directory, path below a file, /proc, over-long name, symlink loop, /dev/full, RLIMIT_FSIZE at byte k) for both renderers on four option sets; Ok must coincide with 'no fault struck' and with the file holding exactly the in-memory rendering. The target is pre-populated with nothing / a shorter / a longer file; ten kinds of unusual legal names (spaces, unicode, leading dash, no extension, relative, through a symlink, 255 bytes); FileIO2.tla: two calls in flight on different paths of one directory, every interleaving, invariant Independent - its 200 pairs replayed on two threads released by a barrier, then 60 / 400 race rounds of four simultaneous writes.",
          "Write-time offsets are abstracted to five classes (0, 1, middle, len-1, len); 64 offsets are swept in thorough."),
@@ -344,7 +345,7 @@ def run_property(pid, tier, seed, replay=None, spec=None):
         ran.append(scen_full)
         # second build configuration: the same scenario driven against the crate compiled as users ship it (no debug assertions,
         # no overflow checks).  Identical trace -> identical verdict, nothing more to judge; a different trace is judged as well.
-        if not replay:
+        if not replay and scen not in NO_TWIN:
             try:
                 ship = runner.build_harness(runner.SHIP[used_kind])
             except ToolError as e:
